@@ -18,6 +18,18 @@ Implementation functions driven (real code from $VERIF_REPO/src):
     the double standardisation), Segmentation.get_volume on tiled segmentations (kind seg_reads)
   Segmentation.get_total_pixel_matrix with caller-chosen segment_numbers per read (empty, not
     described, duplicated, permuted), LABELMAP with combine_segments False / True / relabel (seg_reads)
+  the same constructors fed with arrays in OTHER MEMORY LAYOUTS / dtypes holding the same values
+    (axes stored in any order - Fortran, transposed, segment-major -, strided, reversed and offset
+    views into larger buffers, read-only, bool / uint16 / float 0-1), and with the caller's array
+    overwritten after construction (kind seg_mem; the same option on seg_geom / seg_pyr / seg_hist)
+  Segmentation(tile_pixel_array=False) from a stack of frames the CALLER cut on the source image's tile
+    grid (positions taken from the source frames; any memory layout), read back through
+    get_total_pixel_matrix (kind seg_frames; same model term as the library's own cut)
+  HISTORIES of reads on one object (kinds seg_hist / img_hist): in memory, written and re-read
+    (segread / imread), lazy frame retrieval; the decoded pixel array cached (`.pixel_array`) before
+    any read or in the middle; every returned array overwritten by the caller; output dtype default /
+    explicit; BINARY / FRACTIONAL reads with combine_segments / relabel / rescale_fractional /
+    skip_overlap_checks; at the end the stored frames and the cached array must be unchanged
 Model: coq/theories/C04_Model.v; theorems: C04_Props.v.
 Kind 'np1d' compares the MODEL with pure numpy slicing (no highdicom) on the
 exhaustive per-axis enumeration of start/end arguments.
@@ -57,12 +69,17 @@ MODELLED = ('image.py _standardize_row_column_indices, _iterate_indices_for_tile
             'half of the img cases, proved equal to the cell-wise loop); the region path of Image.get_volume / '
             'Segmentation.get_volume on tiled images (standardise to indices, then get_total_pixel_matrix with '
             'as_indices=True: vol_region); segment_numbers checks (empty / not described -> ValueError) and the '
-            'LABELMAP output modes (planes, combined, relabelled) of Segmentation.get_total_pixel_matrix')
+            'LABELMAP output modes (planes, combined, relabelled) of Segmentation.get_total_pixel_matrix; '
+            'combine_segments / relabel on BINARY and FRACTIONAL storage (np.maximum of label-scaled frames, overlap '
+            'RuntimeError unless skip_overlap_checks, FRACTIONAL only with rescale_fractional: seg_read_combined); '
+            'a history of reads as a list of independent reads followed by "stored frames unchanged" (run_seg_hist)')
 STRATA = ['std', 'std_bad', 'img', 'img_missing', 'img_dup', 'seg', 'seg_full_omit', 'np1d',
-          'seg_geom', 'seg_geom_bad', 'seg_pyr', 'img_vol', 'seg_reads']
+          'seg_geom', 'seg_geom_bad', 'seg_pyr', 'img_vol', 'seg_reads', 'seg_mem', 'seg_frames', 'seg_hist', 'img_hist']
 NOT_EXECUTED = ['float (probability) inputs of FRACTIONAL segmentations (value encoding is property C01)',
                 'compressed transfer syntaxes (frame codecs are property C07)',
-                'multiple optical paths / focal planes (property C12 covers the implied order)']
+                'multiple optical paths / focal planes (property C12 covers the implied order)',
+                'a repeated segment number in a combine_segments request on BINARY / FRACTIONAL storage (the code '
+                'leaks sqlite3.IntegrityError, or reports the segment as overlapping itself with relabel)']
 RULE = ('std: exhaustive small sizes x all argument values in [-n-2, n+3] U {None} per axis (random for the '
         'other axis) + random; img/seg: boundary-biased sizes (every residue of size mod tile), regions drawn '
         'from tile-boundary +-1, first/last, None, negative and 0-based forms, plus a malformed stream (0 start, '
@@ -77,10 +94,44 @@ RULE = ('std: exhaustive small sizes x all argument values in [-n-2, n+3] U {Non
         'plus the one-based end 0 on either axis; seg_reads: one construction, 7 reads each with its own '
         'segment_numbers (valid subsets/permutations/duplicates, empty, undescribed numbers), output mode '
         '(planes; LABELMAP also combined / relabelled) and entry point (get_total_pixel_matrix / get_volume). '
+        'seg_mem: the seg stream with the input array re-laid out in memory (random axis storage order, steps '
+        '+-1 / +-2, offsets into a larger garbage-filled buffer, read-only, dtype uint8 / uint16 / bool / float) and '
+        'possibly overwritten after construction; the same option with p=0.3 on seg_geom / seg_pyr / seg_hist; '
+        'seg_frames: frames cut by the caller on the source grid (TILED_FULL / TILED_SPARSE source, organisation '
+        'given or defaulted, omit on/off), stack laid out like seg_mem with p=0.7; '
+        'seg_hist: one construction (BINARY-biased, >= 2 segments biased), source object in memory / re-read / '
+        'lazy, pixel array cached before read 0..3 or never, returned arrays overwritten or not, 7 reads with mode '
+        'planes / combined / relabel for every type, rescale_fractional, skip_overlap_checks, dtype, entry point, '
+        'the last read being the whole matrix in planes; img_hist: the img stream on an object from a dataset / '
+        'imread / lazy imread with cache warming, overwritten results and default / explicit dtype; '
         'non-trivial = more than one tile and a non-whole region, or a refusal; distinct by case hash')
 EXHAUSTIVE = {'quick': False, 'thorough': False}
 
-FINDINGS = {}    # D100 (tiled get_volume with the one-based end 0), found by this check, was fixed in /repo
+SEG_KINDS = ('seg', 'seg_full_omit', 'seg_mem')
+SEG_TERM_KINDS = SEG_KINDS + ('seg_frames',)     # same model term: the library's cut = the caller's cut
+
+
+# OPEN DEFECT found by the img_hist kind (reported to the lead as D108, /tmp/wt/c04/repro_d.py): a tiled COLOUR image
+# stored as ONE frame cannot be read by get_total_pixel_matrix / get_frames once `.pixel_array` has been
+# accessed (ValueError "Expected an image of shape (R, C, 3)"): image.py 3741 / 1867 recognise "single frame" by
+# `pixel_array.ndim == 2`, which holds for grayscale only.  The configuration is drawn by the default generator
+# as soon as the finding is registered in KNOWN_FINDINGS.json (open -> reported as KNOWN-FINDING; fixed -> must pass).
+_D108 = 'D108'
+
+
+def _sig_d108(c):
+    return (c.get('kind') == 'img_hist' and c['samples'] == 3 and c['hist']['warm'] is not None and
+            (-(-c['R'] // c['th'])) * (-(-c['C'] // c['tw'])) == 1)
+
+
+def _d108_registered():
+    try:
+        return any(f.get('id') == _D108 for f in common.load_findings(PROPERTY))
+    except Exception:      # noqa
+        return False
+
+
+FINDINGS = {_D108: _sig_d108}    # D100 (tiled get_volume with the one-based end 0), found by this check, was fixed in /repo
 
 
 # --------------------------------------------------------------------------
@@ -262,9 +313,75 @@ def _eff_tile(c):
     return tuple(c['tile']) if c['tile'] is not None else (c['src'][2], c['src'][3])
 
 
-def _mask_case(rng, R, C, allow_labelmap=True):
-    ty = rng.choice(['BINARY', 'BINARY', 'FRACTIONAL'] + (['LABELMAP'] if allow_labelmap else []))
-    nseg = rng.randint(1, 3)
+# ---- memory layout of the array handed to the constructor ---------------------------------
+def _mem_spec(rng, inp, nseg, L, force=False):
+    """How the (same-valued) input array is laid out in memory: `order` = storage order of the
+    axes (frames, rows, columns, segments; slowest first - [0, 1, 2, 3] is C order), per-axis
+    step (+-1, +-2: strided / reversed views) and offset into a larger garbage-filled buffer,
+    read-only flag, dtype, and whether the caller overwrites the array after construction."""
+    if not force and rng.random() < 0.7:
+        return None
+    order = [0, 1, 2, 3]
+    k = rng.random()
+    if k < 0.3:
+        order = [3, 2, 1, 0]                              # Fortran order
+    elif k < 0.5:
+        order = [0, 2, 1, 3]                              # rows/columns transposed in memory
+    elif k < 0.8:
+        rng.shuffle(order)
+    steps = [1, 1, 1, 1]
+    off = [0, 0, 0, 0]
+    if rng.random() < 0.4:
+        steps = [1] + [rng.choice([1, 1, 2, -1, -2]) for _ in range(3)]
+        off = [0] + [rng.randint(0, 2) for _ in range(3)]
+    small = inp == 'stack' or (nseg == 1 and max(max(r) for r in L) <= 1)
+    dt = rng.choice(['uint8', 'uint8', 'uint16'] + (['bool', 'float32', 'float64'] if small else []))
+    mem = {'order': order, 'steps': steps, 'off': off, 'ro': rng.random() < 0.25, 'dtype': dt,
+           'clobber': rng.random() < 0.3}
+    if force and order == [0, 1, 2, 3] and steps == [1, 1, 1, 1] and dt == 'uint8' and not mem['clobber']:
+        mem['order'] = [3, 2, 1, 0]
+    return mem
+
+
+def _relayout(a, mem):
+    """The array `a` (values unchanged) as a view with the memory layout `mem` describes."""
+    import numpy as np
+    if not mem:
+        return a
+    a = a.astype(mem['dtype'])
+    nd = a.ndim
+    perm = [p for p in mem['order'] if p < nd]
+    steps, off = mem['steps'][:nd], mem['off'][:nd]
+    big_shape = [a.shape[k] * abs(steps[k]) + off[k] + 1 for k in range(nd)]
+    inv = [perm.index(k) for k in range(nd)]
+    big = np.ones([big_shape[q] for q in perm], a.dtype).transpose(inv)      # garbage: ones
+    assert list(big.shape) == big_shape
+    sl = []
+    for k in range(nd):
+        n, st, o = a.shape[k], steps[k], off[k]
+        if st > 0:
+            sl.append(slice(o, o + n * st, st))
+        else:
+            start, stop = o + (n - 1) * (-st), o + st
+            sl.append(slice(start, stop if stop >= 0 else None, st))
+    v = big[tuple(sl)]
+    assert v.shape == a.shape, (v.shape, a.shape)
+    v[...] = a
+    assert np.array_equal(v, a)
+    if mem['ro']:
+        v.setflags(write=False)
+    return v
+
+
+def _clobber(arr, mem):
+    """the caller reuses its buffer after the segmentation has been constructed"""
+    if mem and mem.get('clobber') and arr.flags.writeable:
+        arr[...] = (arr == 0)
+
+
+def _mask_case(rng, R, C, allow_labelmap=True, ty=None, nseg=None, mem=True):
+    ty = ty or rng.choice(['BINARY', 'BINARY', 'FRACTIONAL'] + (['LABELMAP'] if allow_labelmap else []))
+    nseg = nseg or rng.randint(1, 3)
     L = _labelmap(rng, R, C, nseg)
     inp, stack = 'label', None
     if ty != 'LABELMAP' and rng.random() < 0.25:
@@ -274,7 +391,8 @@ def _mask_case(rng, R, C, allow_labelmap=True):
     sel = rng.sample(range(1, nseg + 1), rng.randint(1, nseg))
     if rng.random() < 0.5:
         sel = list(range(1, nseg + 1))
-    return {'ty': ty, 'nseg': nseg, 'inp': inp, 'L': L, 'stack': stack, 'sel': sel}
+    return {'ty': ty, 'nseg': nseg, 'inp': inp, 'L': L, 'stack': stack, 'sel': sel,
+            'mem': _mem_spec(rng, inp, nseg, L) if mem else None}
 
 
 def _gen_geom(rng, force_bad=False):
@@ -373,6 +491,7 @@ def _gen_pyramid(rng):
             levels.append({'R': r, 'C': cc, 'L': L, 'stack': stack})
     c = {'kind': 'seg_pyr', 'mode': mode, 'src': [SR, SC, sth, stw], 'tile': tile, 'full': full, 'omit': omit,
          'ty': m['ty'], 'nseg': m['nseg'], 'inp': m['inp'], 'sel': m['sel'], 'levels': levels,
+         'mem': (dict(m['mem'], dtype='uint8') if m['mem'] else None),
          'factors': factors, 'shapes': [list(x) for x in shapes],
          # sources mode: every level has its own source with its own tile size
          'src_tiles': [[sth, stw]] + [[rng.randint(1, 4), rng.randint(1, 4)] for _ in shapes[1:]]}
@@ -386,7 +505,7 @@ def _gen_pyramid(rng):
 
 def _gen_seg_reads(rng):
     R, C, th, tw = _sizes(rng)
-    m = _mask_case(rng, R, C)
+    m = _mask_case(rng, R, C, mem=False)
     full = rng.random() < 0.45
     omit = (not full) and rng.random() < 0.7
     nseg = m['nseg']
@@ -414,6 +533,119 @@ def _gen_seg_reads(rng):
     c = {'kind': 'seg_reads', 'R': R, 'C': C, 'th': th, 'tw': tw, 'full': full, 'omit': omit,
          'src_tile': [rng.randint(1, 4), rng.randint(1, 4)], 'reads': reads}
     c.update(m)
+    return c
+
+
+def _gen_seg_mem(rng):
+    """the seg stream with the input array in another memory layout / dtype"""
+    R, C, th, tw = _sizes(rng)
+    if rng.random() < 0.6:                       # interior tiles of at least 2 x 2 (a scrambled 1-wide tile is itself)
+        th, tw = rng.randint(2, 4), rng.randint(2, 4)
+        R, C = min(9, th * rng.randint(1, 3) + rng.randint(0, th - 1)), min(9, tw * rng.randint(1, 3) + rng.randint(0, tw - 1))
+    full = rng.random() < 0.45
+    omit = (not full) and rng.random() < 0.7
+    m = _mask_case(rng, R, C, mem=False)
+    if rng.random() < 0.5:
+        m['L'] = [[rng.randint(0, m['nseg']) for _ in range(C)] for _ in range(R)]     # dense: no symmetric tiles
+        if m['inp'] == 'stack':
+            m['stack'] = [[[1 if m['L'][r][cc] == k else 0 for cc in range(C)] for r in range(R)]
+                          for k in range(1, m['nseg'] + 1)]
+    m['mem'] = _mem_spec(rng, m['inp'], m['nseg'], m['L'], force=True)
+    c = {'kind': 'seg_mem', 'R': R, 'C': C, 'th': th, 'tw': tw, 'full': full, 'omit': omit,
+         'src_tile': [rng.randint(1, 4), rng.randint(1, 4)], 'roundtrip': rng.random() < 0.15,
+         'regions': [[False, None, None, None, None]] + [_region(rng, R, C, th, tw) for _ in range(4)]}
+    c.update(m)
+    return c
+
+
+def _gen_seg_frames(rng):
+    """the CALLER cuts the mask into the source image's tiles and passes the stack of frames
+    (tile_pixel_array=False, positions taken from the source frames), in any memory layout"""
+    R, C, th, tw = _sizes(rng)
+    if rng.random() < 0.5:
+        th, tw = rng.randint(2, 4), rng.randint(2, 4)
+        R, C = min(9, th * rng.randint(1, 3) + rng.randint(0, th - 1)), min(9, tw * rng.randint(1, 3) + rng.randint(0, tw - 1))
+    m = _mask_case(rng, R, C, mem=False)
+    if rng.random() < 0.4:
+        m['L'] = [[rng.randint(0, m['nseg']) for _ in range(C)] for _ in range(R)]
+        if m['inp'] == 'stack':
+            m['stack'] = [[[1 if m['L'][r][cc] == k else 0 for cc in range(C)] for r in range(R)]
+                          for k in range(1, m['nseg'] + 1)]
+    m['mem'] = _mem_spec(rng, m['inp'], m['nseg'], m['L'], force=rng.random() < 0.7)
+    full = rng.random() < 0.4
+    c = {'kind': 'seg_frames', 'R': R, 'C': C, 'th': th, 'tw': tw, 'full': full,
+         'omit': (not full) and rng.random() < 0.7, 'src_full': rng.random() < 0.5,
+         'org_given': full or rng.random() < 0.6, 'roundtrip': rng.random() < 0.15,
+         'regions': [[False, None, None, None, None]] + [_region(rng, R, C, th, tw) for _ in range(4)]}
+    c.update(m)
+    return c
+
+
+_READ_DTYPES = [None, None, None, 'uint8', 'uint16', 'int64', 'float32']
+
+
+def _gen_seg_hist(rng):
+    """a history of reads on ONE segmentation object"""
+    R, C, th, tw = _sizes(rng)
+    m = _mask_case(rng, R, C, ty=rng.choice(['BINARY', 'BINARY', 'BINARY', 'FRACTIONAL', 'LABELMAP']),
+                   nseg=rng.choice([1, 2, 2, 3, 3]))
+    if m['inp'] == 'label' and rng.random() < 0.5:
+        m['L'] = [[rng.randint(0, m['nseg']) if rng.random() < 0.7 else 0 for _ in range(C)] for _ in range(R)]
+    full = rng.random() < 0.45
+    omit = (not full) and rng.random() < 0.7
+    nseg = m['nseg']
+    segs = list(range(1, nseg + 1))
+    reads = []
+    for _ in range(6):
+        mode = rng.choice(['planes', 'combined', 'combined', 'relabel'])
+        k = rng.random()
+        if k < 0.05:
+            sel = []
+        elif k < 0.12:
+            sel = rng.sample(segs, rng.randint(0, nseg - 1)) + [rng.choice([0, nseg + 1, nseg + 3])]
+            rng.shuffle(sel)
+        elif k < 0.5:
+            sel = list(segs)
+        else:
+            sel = rng.sample(segs, rng.randint(1, nseg))
+        if sel and (mode == 'planes' or m['ty'] == 'LABELMAP') and rng.random() < 0.15:
+            sel = sel + [rng.choice(sel)]            # repeated request (not for BINARY / FRACTIONAL combine)
+        opts = {'rescale': rng.random() < 0.5, 'skip': rng.random() < 0.25, 'dtype': rng.choice(_READ_DTYPES)}
+        if m['ty'] == 'FRACTIONAL':
+            opts['rescale'] = (mode != 'planes') and rng.random() < 0.85
+        rg = _region(rng, R, C, th, tw, pbad=0.08)
+        if rng.random() < 0.3:
+            rg = [False, None, None, None, None]
+        reads.append([mode, rng.random() < 0.25, sel, rg, opts])
+    # the last read shows the whole matrix, plane by plane
+    reads.append(['planes', False, list(segs), [False, None, None, None, None],
+                  {'rescale': False, 'skip': False, 'dtype': None}])
+    hist = {'src': rng.choice(['mem', 'mem', 'file', 'lazy']),
+            'warm': rng.choice([None, 0, 0, 0, 1, 2, 3]),      # `.pixel_array` accessed before this read
+            'scribble': rng.random() < 0.5}                     # the caller overwrites every returned array
+    c = {'kind': 'seg_hist', 'R': R, 'C': C, 'th': th, 'tw': tw, 'full': full, 'omit': omit,
+         'src_tile': [rng.randint(1, 4), rng.randint(1, 4)], 'reads': reads, 'hist': hist}
+    c.update(m)
+    return c
+
+
+def _gen_img_hist(rng):
+    R, C, th, tw = _sizes(rng)
+    samples = 3 if rng.random() < 0.25 else 1
+    full = rng.random() < 0.5
+    nt = (-(-R // th)) * (-(-C // tw))
+    drop = []
+    if not full and nt >= 2 and rng.random() < 0.2:
+        drop = sorted(rng.sample(range(nt), rng.randint(1, max(1, nt // 3))))
+    regions = [_region(rng, R, C, th, tw) for _ in range(6)] + [[False, None, None, None, None]]
+    c = {'kind': 'img_hist', 'R': R, 'C': C, 'th': th, 'tw': tw, 'full': full, 'samples': samples,
+            'arr': rng.random() < 0.5, 'px': _pixels(rng, R, C, samples), 'drop': drop, 'dup': None,
+            'regions': regions,
+            'hist': {'src': rng.choice(['mem', 'mem', 'file', 'lazy']), 'warm': rng.choice([None, 0, 0, 1, 3]),
+                     'scribble': rng.random() < 0.6,
+                     'dtypes': [rng.choice([None, 'uint8', 'int64', 'float32']) for _ in regions]}}
+    if _sig_d108(c) and not _d108_registered():
+        c['samples'], c['px'] = 1, [[[p[0]] for p in row] for row in c['px']]      # see _D108 above
     return c
 
 
@@ -539,6 +771,15 @@ def gen_cases(rng, tier):
              'omit': True, 'inp': 'label', 'L': L, 'stack': None, 'sel': list(range(1, nseg + 1)),
              'src_tile': [2, 2], 'regions': [[False, None, None, None, None], _region(rng, R, C, th, tw)]}
         cases.append(c)
+    # ---- memory layout of the input array; histories of reads ------------------------------
+    for _ in range(70 * nrand):
+        cases.append(_gen_seg_mem(rng))
+    for _ in range(40 * nrand):
+        cases.append(_gen_seg_frames(rng))
+    for _ in range(70 * nrand):
+        cases.append(_gen_seg_hist(rng))
+    for _ in range(40 * nrand):
+        cases.append(_gen_img_hist(rng))
     # ---- own geometry relative to the source image / pyramids -----------------------------
     for _ in range(150 * nrand):
         cases.append(_gen_geom(rng))
@@ -611,8 +852,10 @@ def _np1d_matrix(c):
 def _mask_array(m, R, C):
     import numpy as np
     if m['inp'] == 'label':
-        return np.array(m['L'], np.uint8).reshape(1, R, C)
-    return np.stack([np.array(p, np.uint8).reshape(R, C) for p in m['stack']], axis=-1)[None]
+        a = np.array(m['L'], np.uint8).reshape(1, R, C)
+    else:
+        a = np.stack([np.array(p, np.uint8).reshape(R, C) for p in m['stack']], axis=-1)[None]
+    return _relayout(a, m.get('mem'))
 
 
 def _observe_seg(seg, c, regions, roundtrip=False, geom=False):
@@ -665,6 +908,7 @@ def _run_geom(c):
     if isinstance(seg, Err):
         return seg
     assert np.array_equal(arr, before)
+    _clobber(arr, c.get('mem'))
     return _observe_seg(seg, c, c['regions'], c.get('roundtrip'), geom=True)
 
 
@@ -742,10 +986,160 @@ def _run_seg_reads(c):
     return outs
 
 
+def _as_ints(a):
+    """integer view of a returned array (float outputs must hold integers exactly)"""
+    import numpy as np
+    if a.dtype.kind == 'f':
+        if not np.all(a == np.round(a)):
+            return a.astype(np.float64)
+    return a.astype(np.int64)
+
+
+def _reopen(obj, src, reader):
+    """the object as the caller holds it: as constructed, written and re-read, or re-read lazily"""
+    import synth
+    if src == 'file':
+        return synth.write_read(obj, reader)
+    if src == 'lazy':
+        return synth.write_read(obj, reader, as_file=True, lazy_frame_retrieval=True)
+    return obj
+
+
+class _History:
+    """bookkeeping of one history of reads: cache warming, overwritten results, final state"""
+
+    def __init__(self, obj, hist):
+        self.obj, self.hist, self.snap = obj, hist, None
+        try:
+            self.pd0 = bytes(obj.PixelData)
+        except Exception:      # noqa  (lazy retrieval: pixel data stay in the file)
+            self.pd0 = None
+
+    def before(self, i):
+        if self.hist.get('warm') == i:
+            self.snap = self.obj.pixel_array.copy()
+
+    def after(self, a):
+        if self.hist.get('scribble') and a.flags.writeable:
+            a[...] = 1 if a.dtype.kind == 'b' else 201
+
+    def unchanged(self):
+        import numpy as np
+        ok = self.snap is None or np.array_equal(self.obj.pixel_array, self.snap)
+        if self.pd0 is not None:
+            ok = ok and bytes(self.obj.PixelData) == self.pd0
+        return bool(ok)
+
+
+def _run_seg_hist(c):
+    import numpy as np
+    import highdicom as hd
+    import synth
+    R, C = c['R'], c['C']
+    src = synth.sm_tiled(R, C, c['src_tile'][0], c['src_tile'][1])
+    arr = _mask_array(c, R, C)
+    before = arr.copy()
+
+    def build():
+        return synth.make_seg([src], arr, c['ty'], list(range(1, c['nseg'] + 1)),
+                              tile_pixel_array=True, tile_size=(c['th'], c['tw']),
+                              dimension_organization_type='TILED_FULL' if c['full'] else 'TILED_SPARSE',
+                              omit_empty_frames=c['omit'])
+    seg = catch(build)
+    if isinstance(seg, Err):
+        return seg
+    assert np.array_equal(arr, before)
+    _clobber(arr, c.get('mem'))
+    seg = _reopen(seg, c['hist']['src'], hd.seg.segread)
+    h = _History(seg, c['hist'])
+    outs = [int(seg.NumberOfFrames)]
+    for i, (mode, via_volume, sel, rg, opts) in enumerate(c['reads']):
+        h.before(i)
+
+        def f():
+            kw = dict(segment_numbers=list(sel), combine_segments=mode != 'planes', relabel=mode == 'relabel',
+                      rescale_fractional=opts['rescale'], skip_overlap_checks=opts['skip'], **_kw(rg))
+            if opts['dtype'] is not None:
+                kw['dtype'] = np.dtype(opts['dtype'])
+            if via_volume:
+                a = seg.get_volume(**kw).array
+                assert a.shape[0] == 1
+                a = a[0]
+            else:
+                a = seg.get_total_pixel_matrix(**kw)
+            if opts['dtype'] is not None:
+                assert a.dtype == np.dtype(opts['dtype']), (a.dtype, opts['dtype'])
+            b = _as_ints(a)
+            b = b.tolist() if mode != 'planes' else b.transpose(2, 0, 1).tolist()
+            h.after(a)
+            return b
+        outs.append(catch(f))
+    outs.append(h.unchanged())
+    return outs
+
+
+def _run_seg_frames(c):
+    import numpy as np
+    import synth
+    R, C, th, tw = c['R'], c['C'], c['th'], c['tw']
+    src = synth.sm_tiled(R, C, th, tw, tiled_full=c['src_full'])
+    whole = _mask_array(dict(c, mem=None), R, C)[0]                  # R x C or R x C x S
+    nr, nc = -(-R // th), -(-C // tw)
+    pad = np.zeros((nr * th, nc * tw) + whole.shape[2:], np.uint8)
+    pad[:R, :C] = whole
+    frames = np.stack([pad[a * th:(a + 1) * th, b * tw:(b + 1) * tw] for a in range(nr) for b in range(nc)])
+    arr = _relayout(frames, c.get('mem'))
+    before = arr.copy()
+    kw = {}
+    if c['org_given']:
+        kw['dimension_organization_type'] = 'TILED_FULL' if c['full'] else 'TILED_SPARSE'
+
+    def build():
+        return synth.make_seg([src], arr, c['ty'], list(range(1, c['nseg'] + 1)), omit_empty_frames=c['omit'], **kw)
+    seg = catch(build)
+    if isinstance(seg, Err):
+        return seg
+    assert np.array_equal(arr, before)
+    _clobber(arr, c.get('mem'))
+    return _observe_seg(seg, c, c['regions'], c.get('roundtrip'))
+
+
+def _run_img_hist(c):
+    import numpy as np
+    import highdicom as hd
+    im = hd.Image.from_dataset(_img_dataset(c), copy=False)
+    im = _reopen(im, c['hist']['src'], hd.imread)
+    h = _History(im, c['hist'])
+    outs = []
+    for i, (rg, dt) in enumerate(zip(c['regions'], c['hist']['dtypes'])):
+        h.before(i)
+
+        def f():
+            kw = {} if dt is None else {'dtype': np.dtype(dt)}
+            a = im.get_total_pixel_matrix(apply_icc_profile=False, **kw, **_kw(rg))
+            if dt is not None:
+                assert a.dtype == np.dtype(dt), (a.dtype, dt)
+            b = _as_ints(a)
+            if b.ndim == 2:
+                b = b[:, :, None]
+            b = b.transpose(2, 0, 1).tolist()
+            h.after(a)
+            return b
+        outs.append(catch(f))
+    outs.append(h.unchanged())
+    return outs
+
+
 def run_impl(c):
     import numpy as np
     _quiet()
     k = c['kind']
+    if k == 'seg_hist':
+        return _run_seg_hist(c)
+    if k == 'img_hist':
+        return _run_img_hist(c)
+    if k == 'seg_frames':
+        return _run_seg_frames(c)
     if k in ('std', 'std_bad'):
         from highdicom.image import _Image
         ai, rs, re, cs, ce = c['rg']
@@ -779,14 +1173,11 @@ def run_impl(c):
         return outs
     if k == 'seg_reads':
         return _run_seg_reads(c)
-    if k in ('seg', 'seg_full_omit'):
+    if k in SEG_KINDS:
         import synth
         R, C = c['R'], c['C']
         src = synth.sm_tiled(R, C, c['src_tile'][0], c['src_tile'][1])
-        if c['inp'] == 'label':
-            arr = np.array(c['L'], np.uint8).reshape(1, R, C)
-        else:
-            arr = np.stack([np.array(p, np.uint8).reshape(R, C) for p in c['stack']], axis=-1)[None]
+        arr = _mask_array(c, R, C)
         before = arr.copy()
 
         def build():
@@ -798,6 +1189,7 @@ def run_impl(c):
         if isinstance(seg, Err):
             return seg
         assert np.array_equal(arr, before)
+        _clobber(arr, c.get('mem'))
         if c.get('roundtrip'):
             import highdicom as hd
             seg = synth.write_read(seg, hd.seg.segread)
@@ -904,7 +1296,7 @@ def coq_term(c):
         ai, rs, re, cs, ce = c['rg']
         return (f"(run_std {_b(ai)} {_b(c['oi'])} {optz(rs)} {optz(re)} {optz(cs)} {optz(ce)} "
                 f"{zlit(c['R'])} {zlit(c['C'])})")
-    if k in ('img', 'img_missing', 'img_dup', 'img_vol'):
+    if k in ('img', 'img_missing', 'img_dup', 'img_vol', 'img_hist'):
         planes = _img_tiles(c)
         dims = f"{c['R']} {c['C']} {c['th']} {c['tw']}"
         sfx = '_vol' if k == 'img_vol' else ('_arr' if c.get('arr') else '')
@@ -915,6 +1307,8 @@ def coq_term(c):
             P = '[' + '; '.join('[' + '; '.join(f'mkT {t[0]} {t[1]} {zll(t[2])}' for t in ts) + ']'
                                 for ts in planes) + ']'
             calls = [f'run_img{sfx} false {dims} P {_rg_args(rg)}' for rg in c['regions']]
+        if k == 'img_hist':
+            calls.append('VB true')      # reads are functions of the stored frames, which stay what they were
         return f"(let P := {P} in VL [{'; '.join(calls)}])"
     if k == 'seg_reads':
         ty = {'BINARY': 'Binary', 'FRACTIONAL': 'Fractional', 'LABELMAP': 'Labelmap'}[c['ty']]
@@ -925,7 +1319,17 @@ def coq_term(c):
             for mode, vv, sel, rg in c['reads']) + ']'
         return (f"(run_seg_reads {ty} 255 {_b(c['full'])} {_b(c['omit'])} {planes} {zl(segs_model)} "
                 f"{zl(list(range(1, c['nseg'] + 1)))} {c['R']} {c['C']} {c['th']} {c['tw']} {reads})")
-    if k in ('seg', 'seg_full_omit'):
+    if k == 'seg_hist':
+        ty = {'BINARY': 'Binary', 'FRACTIONAL': 'Fractional', 'LABELMAP': 'Labelmap'}[c['ty']]
+        planes, segs_model = _planes_term(c)
+        md = {'planes': 'Planes', 'combined': 'Combined', 'relabel': 'Relabelled'}
+        reads = '[' + '; '.join(
+            f"({md[mode]}, {_b(vv)}, ({_b(o['rescale'])}, {_b(o['skip'])}), {zl(sel)}, "
+            f"({_b(rg[0])}, ({optz(rg[1])}, {optz(rg[2])}, {optz(rg[3])}, {optz(rg[4])})))"
+            for mode, vv, sel, rg, o in c['reads']) + ']'
+        return (f"(run_seg_hist {ty} 255 {_b(c['full'])} {_b(c['omit'])} {planes} {zl(segs_model)} "
+                f"{zl(list(range(1, c['nseg'] + 1)))} {c['R']} {c['C']} {c['th']} {c['tw']} {reads})")
+    if k in SEG_TERM_KINDS:
         ty = {'BINARY': 'Binary', 'FRACTIONAL': 'Fractional', 'LABELMAP': 'Labelmap'}[c['ty']]
         segs = list(range(1, c['nseg'] + 1))
         if c['ty'] == 'LABELMAP':
@@ -1091,9 +1495,74 @@ def _seg_reads_oracle(c, out):
     return None
 
 
+def _seg_hist_oracle(c, out):
+    """every read of the history against numpy on the mask that was passed; the object must be
+    left as it was (last item)"""
+    import numpy as np
+    R, C, th, tw = c['R'], c['C'], c['th'], c['tw']
+    head = _seg_oracle(c, R, C, th, tw, [], out if isinstance(out, Err) else out[:1], geom=False)
+    if head is not None or isinstance(out, Err):
+        return head
+    L = np.array(c['L'], np.int64).reshape(R, C)
+    nseg = c['nseg']
+    if c['inp'] == 'label':
+        masks = {s: (L == s).astype(np.int64) for s in range(1, nseg + 1)}
+    else:
+        masks = {s + 1: np.array(p, np.int64).reshape(R, C) for s, p in enumerate(c['stack'])}
+    scale = 255 if c['ty'] == 'FRACTIONAL' else 1
+    hist = c['hist']
+    for n, ((mode, via_volume, sel, rg, o), got) in enumerate(zip(c['reads'], out[1:-1])):
+        what = (f"read #{n} {'get_volume' if via_volume else 'get_total_pixel_matrix'}(segment_numbers={sel}, {mode}, "
+                f"{rg}, {o}) [object: {hist['src']}, pixel_array cached before read {hist['warm']}, "
+                f"results overwritten: {hist['scribble']}]")
+        ref = ref_region(R, C, rg)
+        bad_sel = len(sel) == 0 or any(s not in masks for s in sel)
+        frac_raw = c['ty'] == 'FRACTIONAL' and mode != 'planes' and not o['rescale']
+        if bad_sel or ref is None or frac_raw:
+            if not isinstance(got, Err):
+                why = ('segment_numbers empty or not described' if bad_sel else
+                       'arguments denote no region' if ref is None else
+                       'FRACTIONAL segments combined without rescale_fractional')
+                return f'{what}: {why}, yet returned {str(got)[:100]}'
+            continue
+        r0, r1, c0, c1 = ref
+        if mode == 'planes':
+            want = [(masks[s] * scale)[r0:r1, c0:c1].tolist() for s in sel]
+        elif c['ty'] == 'LABELMAP':
+            if mode == 'combined':
+                want = np.where(np.isin(L, sel), L, 0)[r0:r1, c0:c1].tolist()
+            else:
+                lut = np.zeros(nseg + 1, np.int64)
+                for s_ in set(sel):
+                    lut[s_] = sel.index(s_) + 1
+                want = lut[L][r0:r1, c0:c1].tolist()
+        else:
+            window = np.stack([masks[s][r0:r1, c0:c1] for s in sel])           # requested planes, region only
+            if (window > 0).sum(axis=0).max(initial=0) > 1 and not o['skip']:
+                if not (isinstance(got, Err) and got.kind == 'RuntimeError'):
+                    return f'{what}: two requested segments overlap inside the region, got {str(got)[:100]}'
+                continue
+            labels = np.array([sel.index(s) + 1 if mode == 'relabel' else s for s in sel], np.int64)
+            want = (window * labels[:, None, None]).max(axis=0, initial=0).tolist()
+        if isinstance(got, Err):
+            return f'{what}: valid read refused: {got}'
+        if got != want:
+            return f'{what}: got {str(got)[:200]} expected {str(want)[:200]}'
+    if out[-1] is not True:
+        return (f"after the reads the object differs from what it was (PixelData bytes / cached pixel_array changed) "
+                f"[object: {hist['src']}, pixel_array cached before read {hist['warm']}]")
+    return None
+
+
 def oracle(c, out):
     import numpy as np
     k = c['kind']
+    if k == 'seg_hist':
+        return _seg_hist_oracle(c, out)
+    if k == 'img_hist':
+        if out[-1] is not True:
+            return 'after the reads the image differs from what it was (PixelData bytes / cached pixel_array changed)'
+        return oracle(dict(c, kind='img_missing' if c['drop'] else 'img'), out[:-1])
     if k in ('std', 'std_bad'):
         ref = ref_region(c['R'], c['C'], c['rg'])
         ai, rs, re, cs, ce = c['rg']
@@ -1148,7 +1617,7 @@ def oracle(c, out):
                 if o != exp[1]:
                     return f'region {rg}: got {str(o)[:200]} expected TPM slice {str(exp[1])[:200]}'
         return None
-    if k in ('seg', 'seg_full_omit'):
+    if k in SEG_TERM_KINDS:
         return _seg_oracle(c, c['R'], c['C'], c['th'], c['tw'], c['regions'], out, geom=False)
     if k in ('seg_geom', 'seg_geom_bad'):
         fl = _geom_flags(c)
@@ -1215,7 +1684,7 @@ def nontrivial(c, out):
         return nt > 1 and any(r[1:] != [None, None, None, None] for r in c['regions'])
     if k == 'seg_pyr':
         return len(c['shapes']) > 1
-    if k == 'seg_reads':
+    if k in ('seg_reads', 'seg_hist', 'img_hist'):
         return True
     if k == 'np1d':
         return c['n'] > c['t']
@@ -1232,6 +1701,34 @@ def shrink(c):
             for i in range(len(c['reads'])):
                 yield dict(c, reads=[c['reads'][i]])
         return
+    if k == 'seg_hist':
+        # a history: drop one read at a time (the order of the others is kept)
+        if len(c['reads']) > 1:
+            for i in range(len(c['reads'])):
+                w = c['hist']['warm']
+                h2 = dict(c['hist'], warm=(w - 1 if (w is not None and w > i) else w))
+                yield dict(c, reads=c['reads'][:i] + c['reads'][i + 1:], hist=h2)
+        if c['hist']['scribble']:
+            yield dict(c, hist=dict(c['hist'], scribble=False))
+        if c['hist']['src'] != 'mem':
+            yield dict(c, hist=dict(c['hist'], src='mem'))
+        if c.get('mem'):
+            yield dict(c, mem=None)
+        return
+    if k == 'img_hist':
+        if len(c['regions']) > 1:
+            for i in range(len(c['regions'])):
+                w = c['hist']['warm']
+                h2 = dict(c['hist'], warm=(w - 1 if (w is not None and w > i) else w),
+                          dtypes=c['hist']['dtypes'][:i] + c['hist']['dtypes'][i + 1:])
+                yield dict(c, regions=c['regions'][:i] + c['regions'][i + 1:], hist=h2)
+        return
+    if k in ('seg_mem', 'seg_frames') and c.get('mem'):
+        m = c['mem']
+        for key, v in (('clobber', False), ('ro', False), ('steps', [1, 1, 1, 1]), ('off', [0, 0, 0, 0]),
+                       ('dtype', 'uint8'), ('order', [3, 2, 1, 0]), ('order', [0, 2, 1, 3])):
+            if m[key] != v:
+                yield dict(c, mem=dict(m, **{key: v}))
     if 'regions' in c and len(c['regions']) > 1:
         for i in range(len(c['regions'])):
             yield dict(c, regions=[c['regions'][i]])
@@ -1250,7 +1747,7 @@ def shrink(c):
                 c2 = dict(c, **{key: None})
                 if _geom_flags(c2)['refused'] == _geom_flags(c)['refused']:
                     yield c2
-    if k in ('seg', 'seg_geom'):
+    if k in ('seg', 'seg_mem', 'seg_frames', 'seg_geom'):
         if c['inp'] == 'label':
             L = c['L']
             for r in range(len(L)):
@@ -1259,7 +1756,7 @@ def shrink(c):
                         L2 = [list(x) for x in L]
                         L2[r][cc] = 0
                         yield dict(c, L=L2)
-        if k == 'seg' and c['nseg'] > 1 and c['inp'] == 'label' and max(max(r) for r in c['L']) < c['nseg']:
+        if k in ('seg', 'seg_mem', 'seg_frames') and c['nseg'] > 1 and c['inp'] == 'label' and max(max(r) for r in c['L']) < c['nseg']:
             yield dict(c, nseg=c['nseg'] - 1, sel=[s for s in c['sel'] if s < c['nseg']] or [1])
     if k in ('img', 'img_missing', 'img_vol') and c['samples'] == 3:
         yield dict(c, samples=1, px=[[[p[0]] for p in row] for row in c['px']])
